@@ -31,6 +31,7 @@ class Iface:
         st.add(
             core.E(r) == core.E(a) + core.E(b),
             core.SH(r) == core.SH(a),
+            core.zk(r) == core.zk(a),
             z3.Implies(z3.And(core.wfv(a), core.wfv(b)), core.wfv(r)),
             z3.Implies(z3.And(core.bkv(a), core.bkv(b)), core.bkv(r)),
             core.has_quantity(r) == core.has_quantity(a),
@@ -42,6 +43,7 @@ class Iface:
         st.add(
             core.E(r) == 0,
             core.SH(r) == core.SH(a),
+            core.zk(r) == core.zk(a),
             core.wfv(r),
             core.bkv(r),
             core.has_quantity(r) == core.has_quantity(a),
@@ -53,6 +55,7 @@ class Iface:
         st.add(
             core.E(r) == f * core.E(a),
             core.SH(r) == core.SH(a),
+            core.zk(r) == core.zk(a),
             z3.Implies(core.wfv(a), core.wfv(r)),
             z3.Implies(core.bkv(a), core.bkv(r)),
             core.has_quantity(r) == core.has_quantity(a),
@@ -64,6 +67,7 @@ class Iface:
         st.add(
             core.E(r) == core.E(a) + w,
             core.SH(r) == core.SH(a),
+            core.zk(r) == core.zk(a),
             z3.Implies(core.wfv(a), core.wfv(r)),
             z3.Implies(core.bkv(a), core.bkv(r)),
             core.has_quantity(r) == core.has_quantity(a),
